@@ -45,6 +45,12 @@ class FuncInfo:
     abstract: bool
 
     @property
+    def key(self) -> str:
+        """Registry key: the qualified name without the package prefix."""
+        q = self.qualname
+        return q[len(PKG) + 1:] if q.startswith(PKG + ".") else q
+
+    @property
     def params(self) -> list[str]:
         a = self.node.args
         return [x.arg for x in a.posonlyargs + a.args] + ([a.vararg.arg] if a.vararg else []) + [
@@ -130,6 +136,10 @@ class ClassInfo:
 
     @property
     def is_abstract(self) -> bool:
+        # BaseRelation is an implementation base (no columns/engine of its own, closed by
+        # __init_subclass__); it is never instantiated directly
+        if self.name == "BaseRelation":
+            return True
         # abstract if any abstract method remains un-overridden
         seen: set[str] = set()
         for c in self.mro:
